@@ -644,7 +644,7 @@ def run(ck: Check):
     for _ in range(40 * N):
         x = "{" + r.choice(URIS) + "}" + r.choice(LOCALS + BAD_LOCALS)
         add({"op": "deser", "types": ["QName"], "s": x, "ns_map": None}, kind="qname_deser", sp=None, m=None)
-    fixed_v = [("http://www.w3.org/2001/XMLSchema-instance", "type", None), (None, "x", [[None, "urn:d"]]), ("urn:x-y", "a", None),
+    fixed_v = [("http://www.w3.org/2001/XMLSchema-instance", "type", None), (None, "x", [[None, "urn:d"]]), ("urn:x-y", "a", None), ("urn:\u00fc", "x", None),
                ("urn:a", "b", [["ns1", "urn:b"]]), ("urn:a", "b", [[None, "urn:a"]]), ("http://www.w3.org/2001/XMLSchema", "int", [])]
     for n in range(180 * N + len(fixed_v)):
         if n < len(fixed_v):
@@ -993,6 +993,7 @@ def run(ck: Check):
                 return {it[0] for it in failing} - {it[0] for it in run_pred(tag, t_rt, pred, failing, f_terms)}
             inputs_ok, clark_ok, default_ok, model_fails = (holds("rt_in", "qname_rt_inputs"), holds("rt_clark", "qname_rt_clark_ok"),
                                                             holds("rt_dflt", "qname_rt_default_ok"), holds("rt_model", "qname_model_rt_fails"))
+            uri_plain = holds("rt_plain", "qname_rt_uri_plain")
             excluded = 0
             for it in failing:
                 what = f"QName {qtext(it[3]['uri'], it[3]['local'])!r} ns_map={it[3]['m']} -> {str(it[2])[:160]}"
@@ -1001,8 +1002,10 @@ def run(ck: Check):
                     excluded += 1          # not a QName value / not a well-formed prefix map: outside the quantifier
                 elif it[0] not in model_fails:
                     fail("corr-qname-roundtrip", "the implementation fails a round trip the model completes: " + what, rp)
+                elif it[0] not in clark_ok and it[0] in uri_plain:
+                    fail("qname-clark-uri-rejected", what, rp)       # fixed in /repo 7c20cbc: a regression if seen again
                 elif it[0] not in clark_ok:
-                    fail("qname-clark-uri-rejected", what, rp)
+                    fail("qname-clark-uri-outside-ascii-subset", what, rp)
                 elif it[0] not in default_ok:
                     fail("qname-no-namespace-under-default-ns", what, rp)
                 else:
